@@ -23,7 +23,7 @@ ASSUMPTIONS = ["at least one row; packed dtypes; header keys are strings other t
 THOROUGH_ROUNDS = 6      # the thorough tier runs the generator over this many derived seeds
 REQUIRED = {"quick": {"C01.file": 1000, "C01.read": 6000, "C01.header": 2500},
             "thorough": {"C01.file": 10000, "C01.read": 70000, "C01.header": 25000}}
-WROUTES = ["sfile.write", "SFile.write", "io.write", "Recfile.write", "recfile.write", "sfile.write+append-new", "io.write+append-new"]
+WROUTES = ["sfile.write", "SFile.write", "io.write", "Recfile.write", "recfile.write", "sfile.write+append-new", "io.write+append-new", "SFile.reused"]
 
 
 BOUNDARIES = [512, 1024, 2048, 4096, 8192, 12288, 16384, 65536]
@@ -209,6 +209,25 @@ def run_case(case):
                 sf.write(data, header=header)
         elif wroute == "io.write":
             eio.write(path, data, header=header)
+        elif wroute == "SFile.reused":
+            # one SFile object used for one file and then, through its public open(), for this one: nothing of the first
+            # file (header, dtype, row count) may carry over.  The first file has the same dtype or another one, and was
+            # written or read through the object.
+            other = path + ".other"
+            first = data[: max(1, data.size // 2)].copy() if rng.random() < .5 else rs.bin_table(rng, nrows=2)
+            sfile.write(other, first, header={"first_file": "yes", "n": 7})
+            if rng.random() < .5:
+                sf = sfile.SFile(other, "r+")
+                sf.write(first)
+            else:
+                sf = sfile.SFile(other)
+                sf.read()
+            if rng.random() < .5:
+                sf.close()
+            sf.open(path, "w")
+            sf.write(data, header=header)
+            sf.close()
+            os.unlink(other)
         elif wroute == "sfile.write+append-new":
             # append=True on a path that does not exist yet is documented to be an ordinary write
             sfile.write(path, data, header=header, append=True)
